@@ -258,6 +258,29 @@ func dialVia(sc *tnScenario, addr string) (net.Conn, error) {
 		ctx, cancel := context.WithTimeout(context.Background(), d)
 		defer cancel()
 		return dl.DialURLContext(ctx, tu)
+	case "urlctxlate-dialer", "urlctxlate-param", "urlctxlate-cancelonly":
+		// the reverse: the caller's context expires much LATER than the dialer's own timeout (or never, it can only be
+		// cancelled): the configured timeout still bounds the dial
+		u := &url.URL{Scheme: "telnet", Host: addr, Path: "/wl2k", User: url.UserPassword(call, pw)}
+		dl := telnet.Dialer{}
+		if sc.Via == "urlctxlate-param" {
+			u.RawQuery = "dial_timeout=" + fmt.Sprintf("%dms", sc.DeadlineMs)
+			dl.Timeout = 10*d + 3*time.Second // (the parameter overrides it)
+		} else {
+			dl.Timeout = d
+		}
+		tu, err := transport.ParseURL(u.String())
+		if err != nil {
+			return nil, fmt.Errorf("harness: ParseURL: %v", err)
+		}
+		if sc.Via == "urlctxlate-cancelonly" {
+			ctx, cancel := context.WithCancel(context.Background())
+			defer cancel()
+			return dl.DialURLContext(ctx, tu)
+		}
+		ctx, cancel := context.WithTimeout(context.Background(), 10*d+3*time.Second)
+		defer cancel()
+		return dl.DialURLContext(ctx, tu)
 	case "background":
 		return telnet.DialContext(context.Background(), addr, call, pw)
 	default: // ctx-deadline
@@ -822,7 +845,7 @@ func timedChunks(parts [][]byte, startMs, gapMs int) []tnChunk {
 
 // "urlctx-*": Dialer.DialURLContext with a caller context that expires BEFORE the dialer's own timeout
 // (Dialer.Timeout resp. dial_timeout are 10x longer): the earlier of the two must win
-var tnVias = []string{"ctx-deadline", "timeout", "ctx-cancel", "url", "dialer", "urlctx-dialer", "urlctx-param", "urlctx-cancel"}
+var tnVias = []string{"ctx-deadline", "timeout", "ctx-cancel", "url", "dialer", "urlctx-dialer", "urlctx-param", "urlctx-cancel", "urlctxlate-dialer", "urlctxlate-param", "urlctxlate-cancelonly"}
 
 func tnURLSafe(b []byte) bool {
 	for _, c := range b {
@@ -837,7 +860,7 @@ func tnURLSafe(b []byte) bool {
 func genClientScenarios(r *rand.Rand, n int) []*tnScenario {
 	var out []*tnScenario
 	add := func(s *tnScenario) {
-		if (s.Via == "url" || s.Via == "dialer" || strings.HasPrefix(s.Via, "urlctx-")) && !(tnURLSafe(s.call()) && tnURLSafe(s.pw())) {
+		if (s.Via == "url" || s.Via == "dialer" || strings.HasPrefix(s.Via, "urlctx")) && !(tnURLSafe(s.call()) && tnURLSafe(s.pw())) {
 			s.Via = "ctx-deadline"
 		}
 		if s.DeadlineMs == 0 {
@@ -881,6 +904,10 @@ func genClientScenarios(r *rand.Rand, n int) []*tnScenario {
 		{Class: "silent", CallHex: hx0(c), PwHex: hx0(p), Via: "dialer", DeadlineMs: 120, End: "silent"},
 		{Class: "silent", CallHex: hx0(c), PwHex: hx0(p), Via: "urlctx-dialer", DeadlineMs: 120, End: "silent"},
 		{Class: "silent", CallHex: hx0(c), PwHex: hx0(p), Via: "urlctx-param", DeadlineMs: 150, End: "silent"},
+		{Class: "silent", CallHex: hx0(c), PwHex: hx0(p), Via: "urlctxlate-dialer", DeadlineMs: 120, End: "silent"},
+		{Class: "silent", CallHex: hx0(c), PwHex: hx0(p), Via: "urlctxlate-param", DeadlineMs: 150, End: "silent"},
+		{Class: "partial-prompt", CallHex: hx0(c), PwHex: hx0(p), Via: "urlctxlate-cancelonly", DeadlineMs: 150, End: "silent",
+			Chunks: []tnChunk{{At: 0, Data: []byte(tnCallProm)}, {At: 10, Data: []byte("Passw")}}},
 		{Class: "partial-prompt", CallHex: hx0(c), PwHex: hx0(p), Via: "urlctx-cancel", DeadlineMs: 150, End: "silent",
 			Chunks: []tnChunk{{At: 0, Data: []byte("Callsi")}}},
 		{Class: "partial-prompt", CallHex: hx0(c), PwHex: hx0(p), Via: "timeout", DeadlineMs: 150, End: "silent",
